@@ -1259,19 +1259,27 @@ def _numlike(v):
 def _known_sign(d):
     """sign of a Rat that is a single real term in symbols declared positive (poly.POSITIVE), else None"""
     from . import poly
-    if not d.is_poly() or len(d.num.t) != 1:
+    if not d.is_poly() or not d.num.t:
         return None
-    (m, c), = d.num.t.items()
-    if c[1] != 0 or not m:
+    sign = None
+    for m, c in d.num.t.items():
+        if c[1] != 0 or c[0] == 0:
+            return None
+        for a, e in m:
+            at = poly.atom_of(a)
+            if a in poly.POSITIVE:
+                continue
+            if at.fn == 'sqrt' and e % 2 == 0:
+                continue
+            return None
+        s = 1 if c[0] > 0 else -1
+        if sign is None:
+            sign = s
+        elif sign != s:
+            return None
+    if all(m == () for m in d.num.t):
         return None
-    for a, e in m:
-        at = poly.atom_of(a)
-        if a in poly.POSITIVE:
-            continue
-        if at.fn == 'sqrt' and e % 2 == 0:
-            continue
-        return None
-    return 1 if c[0] > 0 else -1
+    return sign
 
 
 def _canon_diff(d):
